@@ -117,7 +117,13 @@ func runC06(r *Result, thorough bool) {
 					}
 					victim := lv[rng.Intn(len(lv))]
 					known := victim.core.KnownEvents()
-					if diff, err := x.core.EventDiff(known); err == nil && len(diff) >= 3 {
+					if rng.Intn(2) == 0 {
+						// ... or through a complete, error-free pull (the victim still holds the empty head
+						// left by its idle pulls from x): x's events are then known to a live validator and
+						// must be tied in by it
+						cl.pull(victim, x, -1)
+						r.Inc("last_acts_with_clean_pull", 1)
+					} else if diff, err := x.core.EventDiff(known); err == nil && len(diff) >= 3 {
 						wire, _ := x.core.ToWire(diff)
 						k := 1 + rng.Intn(len(wire)-2) // drop one event in the middle
 						damaged := append(append([]hg.WireEvent{}, wire[:k]...), wire[k+1:]...)
